@@ -17,7 +17,9 @@ PROP = 'C13'
 COQ_DIR = 'Repeat'
 ASSUMPTIONS = [
     'threads and timers are not modelled: the monitor loop runs synchronously; time advances only in monitor time.sleep and '
-    'task.wait(); the kill-delay timer (reactivex.timer) fires when the script says so',
+    'task.wait(); the kill-delay timer (reactivex.timer) fires when the script says so, or - timed scripts - when the fake clock '
+    'has reached the moment it was armed + the delay the engine passed to reactivex.timer (checked after every clock advance, '
+    'event and at the end of a task\'s wait)',
     'producer output is visible to the observer at the instant it is written (no NFS delay); output written after the '
     'producers-finished notification is excluded by hypothesis in C13_sees_final_output',
     '0 to 3 producers, duck-typed job, producer and task objects; in the engine-level scripts the script delivers the '
@@ -33,6 +35,7 @@ ASSUMPTIONS = [
     'task durations are positive (a zero duration makes _perfData_launch_succeeded divide by zero)',
 ]
 HEADER = 'Require Import V.Repeat.Model.\nOpen Scope Z_scope.'
+HEADER5 = 'Require Import V.Repeat.Model V.Repeat.Delay.\nOpen Scope Z_scope.'
 HEADER4 = 'Require Import V.Repeat.Model V.Repeat.RefsModel.\nOpen Scope Z_scope.'
 HEADER_WD = 'From Coq Require Import String.\nRequire Import V.Repeat.WorkDir.\nOpen Scope Z_scope.'
 F13_CLASS = 'repeatRetries_below_threshold'
@@ -51,7 +54,22 @@ def CFG(**k):
     c = {'retries': 3, 'has_prod': True, 'same_stage': True, 'prod_rep': True, 'check_out': True, 'has_delay': False,
          'interval': 10000, 't0': 100000}
     c.update(k)
+    if c.get('delay') is not None:
+        c['has_delay'] = True
     return c
+
+
+# the values of the variable kill-after-producers-done-delay a component may configure: strings (what a package's yaml
+# usually holds) and numbers, the boundary 0 in every spelling; for scripts whose timer expires by the clock the
+# values are commensurate with the poll / task times
+DELAY_VALUES = ['0', 0, 0.0, '0.0', '0.5', 1, '5', '30', '30', 60.0, '2.5e1']
+TIMED_DELAYS = ['0', 0, 0.0, '0.0', '0.001', '0.5', 1, '4', 5, '5.0', '7.5', 12, '26', '30', 60.0]
+
+
+def pick_delay(rng, cfg, values=DELAY_VALUES):
+    if cfg['has_delay']:
+        cfg['delay'] = rng.choice(values)
+    return cfg
 
 
 def PR(same_stage=True, prod_rep=True, **where):
@@ -207,6 +225,18 @@ def coq_case4(cfg, steps, res):
         clist([coq_obs(o) for o in res['obs']]), cbool(res['finished']), xs, w)
 
 
+def coq_case5(cfg, steps, res):
+    """a timed script: (cfg, the option in ms or None, [(dt, events, outcome, notified during the execution)], outputs)"""
+    xs = clist(['{| x_launch := %s; x_pf := %s; x_rc := %s |}' % (cZ(t), cbool(p), copt(rc, cZ))
+                for (t, p, rc, _lo, _k) in res['execs']])
+    sts = clist(['(%s, (%s : list event), %s, %s)' % (cZ(0 if i == 0 else st['dt']), clist([coq_ev(e) for e in st['evs']]),
+                                                      coq_out(st['o']), cbool(bool(st['o'].get('ntf'))))
+                 for i, st in enumerate(steps)])
+    return '(%s, %s, %s, (%s, %s, (%s : list exec)))' % (
+        coq_cfg(cfg), copt(c13_impl.delay_ms(cfg), cZ), sts,
+        clist([coq_obs(o) for o in res['obs']]), cbool(res['finished']), xs)
+
+
 def coq_case(cfg, steps, res):
     xs = clist(['{| x_launch := %s; x_pf := %s; x_rc := %s |}' % (cZ(t), cbool(p), copt(rc, cZ))
                 for (t, p, rc, _lo, _k) in res['execs']])
@@ -229,6 +259,7 @@ def predicate(ctx, cfg, steps, res):
     # a notification that arrives during the execution of poll i takes effect from poll i+1 on: for the predicate
     # it is a Notify at the very beginning of step i+1
     steps = [dict(st, evs=list(st['evs'])) for st in steps]
+    steps_ntf = [bool(st['o'].get('ntf')) for st in steps]
     for i, st in enumerate(steps):
         if st['o'].get('ntf') and i + 1 < len(steps):
             steps[i + 1]['evs'].insert(0, 'Notify')
@@ -271,12 +302,43 @@ def predicate(ctx, cfg, steps, res):
             if p and rc == 0 and not obs[k]['cancel']:
                 ctx.fail(case, 'a successful execution after the producers finished did not stop the observer')
                 break
+    # (2b) the configured kill delay: a notification delivered to a living engine arms ONE timer with the configured value -
+    # whatever that value is, 0 included - and nothing else does (mirror of Model.notify / Delay.with_delay) ...
+    dms = c13_impl.delay_ms(cfg)
+    for nt in res.get('notified') or []:
+        want = [dms] if (dms is not None and nt['alive']) else []
+        try:
+            got = [int(round(float(d) * 1000)) for d in nt['timers']]
+        except Exception:
+            got = ['?']
+        if got != want:
+            ctx.fail(case, 'the producers-finished notification at step %d (engine alive: %s) armed kill-delay timers %s (ms); '
+                           'configured kill-after-producers-done-delay: %r -> expected %s%s' % (
+                               nt['k'], nt['alive'], got, c13_impl.delay_raw(cfg), want,
+                               ': the configured delay can never expire' if want and not got else ''))
+            break
+    # ... and once the clock has reached (first notification of a living engine) + delay the observer is cancelled
+    # (timed scripts: the timer expires by the clock; mirror of Delay.kill_delay_expires)
+    if cfg.get('timed') and dms is not None:
+        tn = next((nt['t'] for nt in (res.get('notified') or []) if nt['alive']), None)
+        if tn is not None:
+            for i, o in enumerate(obs):
+                if o['pf'] and o['now'] >= tn + dms and not o['cancel']:
+                    ctx.fail(case, 'the configured kill-after-producers-done-delay (%r) expired %d ms after the notification '
+                                   '(t=%d ms) but at poll %d (t=%d ms) the observer is not cancelled: it carries on' % (
+                                       c13_impl.delay_raw(cfg), dms, tn, i, o['now']))
+                    break
     for k in res['fired']:
         if k < n and not obs[k]['cancel']:
             ctx.fail(case, 'the kill-after-producers-done-delay timer expired but the observer was not cancelled')
             break
+    # (timed scripts: a notification that follows a poll which launched nothing can, with delay 0, cancel the engine AFTER
+    #  that poll's monitor step and before its observation: the next poll is then the monitor's last)
+    late = {k for k in res['fired'] if cfg.get('timed') and k < n and steps_ntf[k] and k not in (res.get('ntf_mid') or [])}
     for i, o in enumerate(obs):
         if o['cancel'] and not (i == n - 1 and res['finished']):
+            if i in late and not (i > 0 and obs[i - 1]['cancel']) and (i == n - 1 or (i + 1 == n - 1 and res['finished'])):
+                continue
             ctx.fail(case, 'the observer was cancelled but its monitor went on polling')
             break
     if res['finished']:
@@ -350,6 +412,7 @@ def explore(ctx, cases, label='C13 trace'):
     drv = c13_impl.Driver()
     terms = []
     terms3 = []
+    terms5 = []
     terms_wd = []
     try:
         for cfg, steps in cases:
@@ -399,11 +462,31 @@ def explore(ctx, cases, label='C13 trace'):
                     ctx.count('ev_' + ('Out' if is_out(ev) else ev))
             if res['fired']:
                 ctx.count('kill_delay_timer_fired')
+            if cfg['has_delay']:
+                z = c13_impl.delay_ms(cfg) == 0
+                ctx.count('kill_delay_configured_%s' % ('zero' if z else 'positive'))
+                if any(nt['alive'] for nt in res.get('notified') or []):
+                    ctx.count('kill_delay_armed_%s' % ('zero' if z else 'positive'))
+            if cfg.get('timed'):
+                ctx.count('timed_scripts')
+                if res['fired']:
+                    ctx.count('timed_timer_expired_%s' % ('during_an_execution' if any(
+                        k < len(used) and any(x[4] == k and x[2] is not None for x in res['execs']) for k in res['fired'])
+                        else 'between_executions'))
+                if res['fired'] and res.get('ntf_mid') and c13_impl.delay_ms(cfg) == 0:
+                    ctx.count('timed_delay_zero_notified_and_expired_during_an_execution')
             if any(o['reason'].startswith('R?') for o in res['obs']):
                 ctx.disagree({'cfg': cfg, 'steps': used}, res['obs'], None, label + ': exit reason outside the model')
                 continue
             if stagein:
                 terms3.append((coq_case4(cfg, used, res), cfg, used, res))
+                continue
+            if cfg.get('timed'):
+                terms5.append((coq_case5(cfg, used, res), cfg, used, res))
+                if nontriv and res['fired']:
+                    ctx.sample({'cfg': cfg, 'script': [[s['dt'], s['evs'], s['o']] for s in used],
+                                'timer_expired_at_steps': res['fired'], 'finished': res['finished'], 'final': res['obs'][-1]},
+                               limit=6)
                 continue
             terms.append((coq_case(cfg, model_steps(cfg, used), res), cfg, used, res))
             if nontriv:
@@ -420,6 +503,12 @@ def explore(ctx, cases, label='C13 trace'):
         ctx.disagree({'cfg': cfg, 'steps': used}, {'obs': res['obs'], 'finished': res['finished'],
                                                    'execs': [e[:3] for e in res['execs']]}, m,
                      label + ': RepeatingEngine/CreateMonitor vs Repeat.Model.run_steps')
+    bad = ctx.model_mismatches(HEADER5, [t[0] for t in terms5], 'check_case5', chunk=250, name='model5') if terms5 else []
+    for k, i in enumerate(bad):
+        _, cfg, used, res = terms5[i]
+        ctx.disagree({'cfg': cfg, 'steps': used}, {'obs': res['obs'], 'finished': res['finished'],
+                                                   'execs': [e[:3] for e in res['execs']], 'timer_expired_at': res['fired']}, '',
+                     label + ': RepeatingEngine/CreateMonitor with the clock-driven kill-delay timer vs Repeat.Delay.trun_steps')
     bad = ctx.model_mismatches(HEADER_WD, [t[0] for t in terms_wd], 'check_wd', chunk=400, name='model_wd') if terms_wd else []
     for k, i in enumerate(bad):
         _, cfg, used, ops = terms_wd[i]
@@ -488,6 +577,7 @@ def gen_random(rng, thorough):
               same_stage=rng.random() < 0.8, prod_rep=rng.random() < 0.75, check_out=rng.random() < 0.9,
               has_delay=rng.random() < 0.35, interval=rng.choice([5000, 7000, 10000, 12000, 30000]),
               t0=rng.choice([0, 1000, 100000, 123456]))
+    pick_delay(rng, cfg)
     nprod = rng.choice([1, 1, 2, 2, 3]) if cfg['has_prod'] else 0
     if nprod != 1 or rng.random() < 0.5:
         # an explicit list of producers, each with its own stage / repeating flag
@@ -532,6 +622,56 @@ def gen_random(rng, thorough):
     return cfg, steps
 
 
+def gen_timed(rng, thorough):
+    """a script whose kill-delay timer is NOT scripted: it expires when the clock has reached the notification + the
+    configured delay (any value, 0 included); one notification, between two polls or during an execution"""
+    cfg = CFG(retries=rng.choice([None, 0, 1, 2, 3, 5, 8]), check_out=rng.random() < 0.9, has_delay=rng.random() < 0.88,
+              interval=rng.choice([5000, 7000, 10000, 12000, 30000]), t0=rng.choice([0, 1000, 100000, 123456]), timed=True)
+    pick_delay(rng, cfg, TIMED_DELAYS)
+    nprod = rng.choice([0, 1, 1, 1, 2, 3])
+    cfg['prods'] = [PR(rng.random() < 0.8, rng.random() < 0.6) for _ in range(nprod)]
+    cfg['has_prod'] = nprod > 0
+    n = rng.randint(3, 16 if thorough else 12)
+    notify_at = rng.choice([None] + list(range(n)) * 6)
+    mid = notify_at is not None and rng.random() < 0.45
+    steps = []
+    for i in range(n):
+        evs = []
+        for q in range(nprod):
+            if (notify_at is None or i <= notify_at) and rng.random() < (0.4 if q == 0 else 0.3):
+                evs.append('Out' if q == 0 else 'Out%d' % q)
+        rng.shuffle(evs)
+        if notify_at == i and not mid:
+            evs.insert(rng.randint(0, len(evs)), 'Notify')
+        if rng.random() < 0.01:
+            evs.append('Kill')
+        o = O(rc=rng.choice([0, 0, 1, 1, 2]), dur=rng.choice([1, 500, 1000, 4000, 7000, 12000, 26000]),
+              fail=rng.random() < 0.08, re=rng.random() < 0.1, ntf=(mid and notify_at == i))
+        steps.append(S(rng.choice([5000, 5000, 5001, 5500, 7000, 12000]), evs, o))
+    return cfg, steps
+
+
+def systematic_timed(n):
+    """every spelling of the boundary delay 0 and a few positive delays x every placement of the notification (in any sleep,
+    during the execution of any poll) x {a long-running task, failing executions, launches that raise, quick successes} x
+    repeatRetries {0, 3}, for scripts of n polls of an observer that can always consume"""
+    cases = []
+    pats = [lambda i: O(rc=0, dur=26000), lambda i: O(rc=1, dur=1000), lambda i: O(rc=1, fail=(i % 2 == 1)), lambda i: O(rc=0),
+            lambda i: O(rc=1, dur=12000)]
+    for delay in (0, '0', 0.0, '0.0', 1, '5', '12', '30'):
+        for r in (0, 3):
+            for pat in pats:
+                for at in range(n):
+                    for mid in (False, True):
+                        steps = []
+                        for i in range(n):
+                            o = pat(i)
+                            o['ntf'] = bool(mid and i == at)
+                            steps.append(S(5000, (['Out'] if i == 0 else []) + (['Notify'] if (i == at and not mid) else []), o))
+                        cases.append((CFG(retries=r, prod_rep=False, delay=delay, timed=True), steps))
+    return cases
+
+
 def gen_stagein(rng, thorough):
     """a producer-level script: producers write while alive and finish; nobody scripts the notification"""
     nprod = rng.choice([0, 1, 1, 2, 2, 2, 3])
@@ -539,6 +679,7 @@ def gen_stagein(rng, thorough):
               interval=rng.choice([5000, 7000, 10000, 12000]), t0=rng.choice([0, 100000, 123456]),
               prods=[PR(rng.random() < 0.8, rng.random() < 0.75) for _ in range(nprod)], has_prod=nprod > 0)
     cfg['alive0'] = [rng.random() < 0.9 for _ in range(nprod)]
+    pick_delay(rng, cfg)
     n = rng.randint(3, 16 if thorough else 12)
     fin = [rng.choice([None] + list(range(n)) * 4) for _ in range(nprod)]
     steps = []
@@ -833,6 +974,26 @@ def corpus():
     # ... copyout references are output by design: the observer may execute at once
     c.append((CFG(retries=1, prods=[PR(True, False)], real=[RP(direct=[('seed.txt', 'copy')], comp=[('f.txt', 'copyout')])]),
               [S(0), S(), S(5000, ['Notify']), S(), S()]))
+    # the VALUE of kill-after-producers-done-delay: 0 (stop as soon as the producers are done) is a configured delay.
+    # Timed scripts (the timer expires by the clock): a long-running task is in flight when the producers finish - the
+    # timer expires at once, the task is signalled, the observer stops with that execution
+    c.append((CFG(prod_rep=False, delay=0, timed=True), [S(0, ['Out'], O(rc=1, dur=12000, ntf=True)), S(), S(), S()]))
+    c.append((CFG(prod_rep=False, delay='0', timed=True), [S(0, ['Out']), S(5000, [], O(rc=0, dur=26000, ntf=True)), S(), S()]))
+    # ... failing executions, notified between two polls: cancelled there and then; notified before run()
+    c.append((CFG(retries=5, prod_rep=False, delay=0.0, timed=True),
+              [S(0, ['Out'], O(rc=1)), S(5000, ['Notify'], O(rc=1))] + [S(o=O(rc=1)) for _ in range(5)]))
+    c.append((CFG(retries=5, delay='0.0', timed=True), [S(0, ['Out', 'Notify'])] + [S() for _ in range(3)]))
+    # ... a positive delay: expires during the long execution after next / between two polls / never within the script
+    c.append((CFG(retries=5, prod_rep=False, delay='12', timed=True),
+              [S(0, ['Out'], O(rc=1)), S(5000, ['Notify'], O(rc=1)), S(5000, [], O(rc=1, dur=26000))] + [S(o=O(rc=1)) for _ in range(3)]))
+    c.append((CFG(retries=9, prod_rep=False, delay=7.5, timed=True),
+              [S(0, ['Out'], O(rc=1)), S(5000, ['Notify'], O(rc=1))] + [S(o=O(rc=1)) for _ in range(5)]))
+    c.append((CFG(retries=2, prod_rep=False, delay='60', timed=True),
+              [S(0, ['Out'], O(rc=1)), S(5000, ['Notify'], O(rc=1))] + [S(o=O(rc=1)) for _ in range(5)]))
+    # ... scripted expiry (the model's Suicide event) with the boundary value configured
+    c.append((CFG(retries=9, delay=0), [S(0, ['Out']), S(5000, ['Out']), S(), S(5000, ['Notify']), S(5000, ['Suicide'])]
+              + [S() for _ in range(4)]))
+    c.append((CFG(delay='0', prod_rep=False), [S(0, ['Out']), S(), S(5000, ['Notify'], O(rc=9, sui=True)), S(), S()]))
     return c
 
 
@@ -849,7 +1010,9 @@ def run(ctx):
                 'earlier-stage producers, and exhaustively {same name, distinct} x {finished, not instantiated, alive} x 6 reference orders x the '
                 'finishing step of the subject for <= 3/5 polls); plus real-producer scripts (real Job objects + working directories staged in by the real '
                 'Job.stageIn: 11 reference shapes x repeating or not x 3 first-write steps, two-producer combinations, 150/2500 random shapes and scripts, late '
-                'stage-in); non-trivial = at least one launch and '
+                'stage-in); plus timed scripts (the value of kill-after-producers-done-delay matters: 0 in four spellings / 1 / 5 / 12 / 30 s x every '
+                'placement of the notification, also during any execution, x 5 outcome patterns x repeatRetries {0,3} for 4 (thorough 3,5,7) polls, and '
+                '900/12000 random ones; in every other family the value is drawn from 10 spellings incl. 0); non-trivial = at least one launch and '
                 'the notification delivered; distinct by (cfg, consumed script)')
     cases = corpus()
     ctx.count('corpus_cases', len(cases))
@@ -887,6 +1050,14 @@ def run(ctx):
     cases += rl
     for _ in range(2500 if thorough else 150):
         cases.append(gen_real(rng, thorough))
+    # the kill delay WITH ITS VALUE: the timer expires by the clock (delay 0 in every spelling, positive delays)
+    tm = []
+    for n in ((3, 5, 7) if thorough else (4,)):
+        tm += systematic_timed(n)
+    ctx.count('systematic_timed_cases', len(tm))
+    cases += tm
+    for _ in range(12000 if thorough else 900):
+        cases.append(gen_timed(rng, thorough))
     explore(ctx, cases)
 
 
